@@ -8,6 +8,7 @@ from `amount` and feeds leg two's input-side amount (v2: its fee-excluded amount
 intermediate mint) into leg one; output(one) != input(two) fails; the two pools must be
 distinct and share the intermediate mint before any computation; each pool / oracle is
 updated with its own leg's result, booked on that leg's own input side.
+Also decided: each leg's adaptive-fee write-back lies on every successful path of both two-hop handlers.
 Not decided: equality of resulting account bytes with two separate instructions."""
 from analysis import cfg, atoms as A, preach
 from analysis.ir import callee_path, AnchorMissing
